@@ -298,48 +298,95 @@ pub fn run(ctx: &mut Ctx) -> R {
     let got = guarded_receive(ctx, &d, src, "stream with garbage", wire.len() + 50)?;
     let nt = d.0.borrow().frame_sized_transfers > 0;
     ctx.eval(2, nt);
-    // every returned frame is one of the written frames, in original order
-    let mut next = 0usize;
-    let mut lost = Vec::new();
-    for (k, a) in got.frames.iter().enumerate() {
-        match surviving[next.min(surviving.len())..].iter().position(|s| same(a, s)) {
-            Some(p) => {
-                for q in next..next + p {
-                    lost.push(q);
-                }
-                next += p + 1;
+    // every returned frame is one of the written frames, in original order — or an accidentally
+    // checksum-valid frame somewhere on the wire, i.e. one that does not start where a real frame
+    // starts (e.g. a truncated copy of a frame completed by the first byte of the frame that follows
+    // it). Such a frame is on the wire; returning it is not fabrication, whatever it contains.
+    // The assignment is searched (not greedy): an accidental frame may equal a written frame.
+    let accidental: Vec<bool> = got
+        .frames
+        .iter()
+        .map(|a| {
+            (0..wire.len().saturating_sub(1)).any(|i| {
+                wire[i] == 0xFF
+                    && (wire[i + 1] >> 1) == 0b1111100
+                    && !real_starts.contains(&i)
+                    && matches!(refflac::parse_frame(&wire, i, None), Ok(f) if f.interleaved() == a.3 && f.rate == Some(a.0) && f.channels == a.1)
+            })
+        })
+        .collect();
+    // best[k][next] = fewest written frames skipped when returned frames k.. are explained with the
+    // written frames from index `next` on (None = impossible)
+    let (nk, ns) = (got.frames.len(), surviving.len());
+    let mut best: Vec<Vec<Option<usize>>> = vec![vec![None; ns + 1]; nk + 1];
+    for next in 0..=ns {
+        best[nk][next] = Some(0);
+    }
+    for k in (0..nk).rev() {
+        for next in 0..=ns {
+            let mut b: Option<usize> = None;
+            if accidental[k] {
+                b = best[k + 1][next];
             }
-            None => {
-                // is it an accidentally checksum-valid frame somewhere on the wire — i.e. one that does
-                // not start where a real frame starts (e.g. a truncated copy of a header completed by the
-                // first byte of the frame that follows it)? Such a frame is on the wire; returning it is
-                // not fabrication, whatever it happens to contain.
-                let mut accidental = false;
-                for i in 0..wire.len().saturating_sub(1) {
-                    if wire[i] == 0xFF && (wire[i + 1] >> 1) == 0b1111100 && !real_starts.contains(&i) {
-                        if let Ok(f) = refflac::parse_frame(&wire, i, None) {
-                            if f.interleaved() == a.3 && f.rate == Some(a.0) && f.channels == a.1 {
-                                accidental = true;
-                            }
+            for p in next..ns {
+                if same(&got.frames[k], &surviving[p]) {
+                    if let Some(rest) = best[k + 1][p + 1] {
+                        let cost = rest + (p - next);
+                        if b.map(|x| cost < x).unwrap_or(true) {
+                            b = Some(cost);
                         }
                     }
                 }
-                if accidental {
-                    probe("c16_accidental_valid_frame_in_garbage");
-                    continue;
-                }
-                if sent.iter().any(|s| same(a, s)) {
-                    return viol("frame-fabricated", format!("returned frame #{k} is a written frame but out of order or duplicated (wire: {desc})"));
-                }
-                return viol(
-                    "frame-fabricated",
-                    format!("returned frame #{k} (rate={} ch={} bits={} {} samples) is not one of the written frames (wire: {desc})", a.0, a.1, a.2, a.3.len()),
-                );
             }
+            best[k][next] = b;
         }
     }
-    for q in next..surviving.len() {
-        lost.push(q);
+    if best[0][0].is_none() {
+        // report the first returned frame that cannot be explained in any assignment of its predecessors
+        let mut k_bad = 0;
+        for k in 0..nk {
+            let reachable = (0..=ns).any(|n| best[k][n].is_some());
+            if !reachable {
+                k_bad = k;
+            }
+        }
+        let a = &got.frames[k_bad.min(nk - 1)];
+        if sent.iter().any(|s| same(a, s)) {
+            return viol("frame-fabricated", format!("the returned frames cannot be matched to the written frames in order: frame #{k_bad} is a written frame but out of order or duplicated (wire: {desc})"));
+        }
+        return viol(
+            "frame-fabricated",
+            format!("returned frame #{k_bad} (rate={} ch={} bits={} {} samples) is not one of the written frames (wire: {desc})", a.0, a.1, a.2, a.3.len()),
+        );
+    }
+    if accidental.iter().any(|x| *x) {
+        probe("c16_accidental_valid_frame_in_garbage");
+    }
+    // written frames not returned, in the assignment that loses fewest
+    let mut lost = Vec::new();
+    {
+        let (mut k, mut next) = (0usize, 0usize);
+        while k < nk {
+            let target = best[k][next].unwrap();
+            let mut advanced = false;
+            for p in next..ns {
+                if same(&got.frames[k], &surviving[p]) && best[k + 1][p + 1].map(|r| r + (p - next)) == Some(target) {
+                    for q in next..p {
+                        lost.push(q);
+                    }
+                    next = p + 1;
+                    advanced = true;
+                    break;
+                }
+            }
+            if !advanced {
+                // explained as an accidental frame
+            }
+            k += 1;
+        }
+        for q in next..ns {
+            lost.push(q);
+        }
     }
     // (4) bytes without the sync pattern cost no frame
     let sync_free = garbage_all.iter().all(|g| !has_sync(g));
